@@ -385,6 +385,7 @@ class _NumericOperationsImpl(OperationsBlock):
 
     @validate_core
     def argmax(self, x, axis=None, keepdims=False):
+        x = _nulls_as_absent(x, largest=False)
         if axis is not None and axis < 0:
             axis += x.ndim  # see _normalize_axes
         if axis is None:
@@ -402,6 +403,7 @@ class _NumericOperationsImpl(OperationsBlock):
 
     @validate_core
     def argmin(self, x, axis=None, keepdims=False):
+        x = _nulls_as_absent(x, largest=True)
         if axis is not None and axis < 0:
             axis += x.ndim  # see _normalize_axes
         if axis is None:
@@ -1040,6 +1042,19 @@ def _constant_predicate(x: Array, value: bool) -> ndx.Array:
             null=x.null.copy(),
         )
     return ndx.full_like(x, value, dtype=dtypes.bool)
+
+
+def _nulls_as_absent(x: Array, *, largest: bool) -> Array:
+    """Replace nulls of a nullable numeric array by the value that never wins an
+    ``argmin`` (``largest=True``) or ``argmax`` search, as ``min`` and ``max`` do."""
+    if isinstance(x.dtype, dtypes.NullableFloating):
+        info = dtypes.get_finfo(x.dtype.values)
+    elif isinstance(x.dtype, (dtypes.NullableIntegral, dtypes.NullableUnsigned)):
+        info = dtypes.get_iinfo(x.dtype.values)
+    else:
+        return x
+    fill_value = ndx.asarray(info.max if largest else info.min, dtype=x.dtype.values)
+    return ndx.where(x.null, fill_value, x.values)
 
 
 def _via_i64_f64(
